@@ -8,7 +8,7 @@ from report import AnalysisError
 from pyfront import Repo, canon, TK
 from pyutil import rel, params
 from consteval import Ev, fold, Unknown, Raised, EnumMember
-from layout import Enc, Dec, bitfields, byte_ref, PRESENT
+from layout import Enc, Dec, bitfields, byte_ref, PRESENT, fold_field
 from accept import Extractor
 from absdom import IntSet, Dom
 import exprnf as X
@@ -144,6 +144,16 @@ def r1_r2(L, repo):
                         want = ("byte", s.off, neg)
                     else:
                         want = ("unpack", s.fmt, s.off, s.off + s.size)
+                    if cd != want and cd[0] == "other" and s.size <= 2:
+                        # hand-written decoding: decide it by folding over every value of its octets
+                        ok_, info = fold_field(repo, mod, d, msg, s.off, s.size, s.fmt, neg)
+                        if ok_ is None:
+                            raise AnalysisError("C01: decoder expression of `%s` unclassifiable (%s): %s" % (name, info, cd[1][:60]))
+                        L.ob("C01.R1", F, cls + ".parse_msg",
+                             "%s: field `%s` decodes every value of octets %d..%d as the wire format %s%s prescribes (folded over all %d values)" % (
+                                 fn, name, s.off, s.off + s.size - 1, s.fmt, ", negated" if neg else "", 256 ** s.size),
+                             "equal for all octet values", info, ok_ is True, dec.field_nodes[name].lineno)
+                        continue
                     L.require("C01.R1", F, cls + ".parse_msg",
                               "%s: field `%s` is decoded from where and how it was encoded (offset %d, format %s%s)" % (
                                   fn, name, s.off, s.fmt, ", negated" if neg else ""), want, cd,
